@@ -57,6 +57,9 @@ def layout(rng, ips, bs, style=None, allow00=False):
                 ln = rng.choice([0, 1, 2, 5, 10, 20, 33, 400]); step = rng.choice([0, 0, 1, 5, 9, 10, 11, 30])
             items.append((pos, pos + ln))
             pos += step
+    if style == "zero" and rng.random() < 0.3:
+        # a chromosome without a single covered base (positions >= 1: [0,0) is the known finding K2)
+        items = [(max(a, 1), max(a, 1)) for (a, _) in items]; style = "zeroonly"
     last_start = items[-1][0]
     max_end = max(e for _, e in items)
     if style == "pastend":
